@@ -261,7 +261,7 @@ namespace detail
 		GLM_FUNC_QUALIFIER static vec<4, double, Q> call(vec<4, double, Q> const& a, vec<4, double, Q> const& b, vec<4, double, Q> const& c)
 		{
 			vec<4, double, Q> Result;
-#	if (GLM_ARCH & GLM_ARCH_AVX2_BIT) && !(GLM_COMPILER & GLM_COMPILER_CLANG)
+#	if (GLM_ARCH & GLM_ARCH_AVX2_BIT) && !(GLM_COMPILER & GLM_COMPILER_CLANG) && (defined(__FMA__) || !(GLM_COMPILER & GLM_COMPILER_GCC))
 			Result.data = _mm256_fmadd_pd(a.data, b.data, c.data);
 #	elif (GLM_ARCH & GLM_ARCH_AVX_BIT)
 			Result.data = _mm256_add_pd(_mm256_mul_pd(a.data, b.data), c.data);
